@@ -69,7 +69,7 @@ if [ "$RC1" = 0 ] || [ "$RC0" != 0 ]; then log "demo does not discriminate -> re
 git -C "$WT" apply "$SRC/patch.diff"
 rm -rf "$WT/_build"
 T0=$(date +%s)
-( cd /verif && VERIF_REPO="$WT" ./check "$PROP" "$TIER" ) >"$WT/check.log" 2>&1; CRC=$?
+( cd ${VERIF_CHECK_DIR:-/verif} && VERIF_REPO="$WT" ./check "$PROP" "$TIER" ) >"$WT/check.log" 2>&1; CRC=$?
 T1=$(date +%s)
 log "check $PROP $TIER on the patched tree: rc=$CRC ($((T1-T0))s)"
 grep -E "^VIOLATION|^KNOWN|^ENGINE|^BUILD|^HARNESS" "$WT/check.log" | head -5
